@@ -62,6 +62,14 @@ def main():
                 ctx.model.available = False
         info = core.compile_props(pid)
         ctx.add_obligations(info)
+        if tier == 'thorough':
+            # independent re-check of the property file and everything it depends on
+            rc, out = core.sh('timeout 3000 coqchk -silent -o -Q . CssV CssV.Props.%s' % pid, cwd=core.COQ, timeout=3100)
+            summary = out[out.find('CONTEXT SUMMARY'):][:1500] if 'CONTEXT SUMMARY' in out else out[-1500:]
+            ctx.extra['coqchk'] = {'exit': rc, 'summary': ' '.join(summary.split())}
+            ctx.trusted.append('coqchk -o CssV.Props.%s: %s' % (pid, ' '.join(summary.split())[:400]))
+            if rc != 0:
+                ctx.broken.append(('proof', 'coqchk rejected the compiled development: ' + out[-800:]))
         mod.run(ctx)
     except Exception:
         ctx.broken.append(('harness', traceback.format_exc()[-3000:]))
